@@ -208,6 +208,7 @@ theorem handleMsg_drainMono (w : W) (m : FMsg) : DrainMono w (w.handleMsg m) := 
   | finished who key => exact DrainMono.of_eq (workerFinishedJob_drain w who key)
   | adjust n => exact DrainMono.of_eq (resizePool_drain w n)
   | updateSettings d n => exact DrainMono.of_eq (updateSettings_drain w d n)
+  | setHandler hd => exact DrainMono.of_eq rfl
   | drainRequests => intro _; simp [W.handleMsg, W.emit]
   | calculate =>
     show DrainMono w (if w.cfg.hasCC && w.armed then { w with armed := false, blocked := true } else w.calcRest)
@@ -319,6 +320,7 @@ theorem applyOp_drainMono (w : W) (op : Op) : DrainMono w (w.applyOp op) := by
     simp only [W.applyOp, send_drain]
     cases d <;> cases n <;> rfl
   | drain => exact DrainMono.of_eq (by simp only [W.applyOp, send_drain]; rfl)
+  | setHandler hd => exact DrainMono.of_eq (by simp only [W.applyOp, send_drain]; rfl)
   | advance => exact DrainMono.refl w
   | block => exact DrainMono.of_eq rfl
   | release n =>
